@@ -545,11 +545,15 @@ class Model:
                         left = DecLinConstr(constr.model,
                                             constr.linear, constr.const,
                                             np.zeros(constr.linear.shape[0]),
-                                            constr.event_adapt, constr.ctype)
+                                            constr.event_adapt, constr.fixed,
+                                            constr.ctype)
+                        left.ambset = constr.ambset
                         right = DecLinConstr(constr.model,
                                              -constr.linear, -constr.const,
                                              np.zeros(constr.linear.shape[0]),
-                                             constr.event_adapt, constr.ctype)
+                                             constr.event_adapt, constr.fixed,
+                                             constr.ctype)
+                        right.ambset = constr.ambset
                         return self.ro_to_roc(left) + self.ro_to_roc(right)
 
                     left_empty = roaffine.raffine.linear.nnz == 0
